@@ -28,7 +28,7 @@ var c03 = core.Register(&core.Prop{
 	Probes:           func(tier string) int { return len(c03Probes) },
 	Floors: func(c map[string]int64, tier string) []string {
 		var out []string
-		for _, k := range []string{"evaluated", "value_results", "error_results", "misuse_cases", "shape_evals", "pad_cases", "misuse_inside_larger_formulas"} {
+		for _, k := range []string{"evaluated", "value_results", "error_results", "misuse_cases", "shape_evals", "pad_cases", "misuse_inside_larger_formulas", "kind_pair_cases"} {
 			if c[k] == 0 {
 				out = append(out, "coverage floor: no "+k)
 			}
@@ -269,6 +269,53 @@ func runC03(w *core.W) {
 				continue // the 64 KiB literal costs ~6 s in the decimal library; thorough tier only
 			}
 			run("shape:"+sh.Name, string(gen.ShapeBytes(sh, n)), StdData(r), "shape_evals")
+		}
+	}
+	// 5b. every pair of value kinds (ordinary and odd Go kinds, two values of the same kind included) under every operator shape
+	kinds := append([]string{"nil", "bool", "str", "int", "int64", "f64", "dec", "time", "list", "map", "struct", "pstruct", "nilptr", "nildec", "fn", "uint8", "f32"}, val.OddKinds()...)
+	mk := func(k string, n int) val.V {
+		switch k {
+		case "list":
+			return val.List(val.Int("int", int64(n)), val.Str("e"))
+		case "map":
+			return val.Map(val.KV{K: "k", V: val.Int("int", int64(n))})
+		case "struct":
+			return val.Struct(val.KV{K: "A", V: val.Int("int", int64(n))})
+		case "pstruct":
+			return val.PStruct(val.KV{K: "A", V: val.Int("int", int64(n))})
+		case "dec":
+			return val.Dec([]string{"1.50", "2.25"}[n%2])
+		case "time":
+			return val.Time(int64(1700000000+n), 0, "UTC")
+		case "fn":
+			return val.Fn([]string{"id", "one"}[n%2])
+		case "f64":
+			return val.F64(float64(n) + 0.5)
+		case "f32":
+			return val.F32(float32(n) + 0.5)
+		case "bool":
+			return val.Bool(n%2 == 0)
+		case "uint8":
+			return val.Uint("uint8", uint64(n))
+		}
+		return val.V{K: k, S: []string{"a", "b"}[n%2], I: int64(n), U: uint64(n)}
+	}
+	pairOps := []string{"p == q", "p != q", "p === q", "p !== q", "p < q", "p >= q", "p + q", "p - q", "p * q", "p / q", "p % q", "p & q", "p && q", "p || q", "p ?? q", "p == p", "p === p", "p < p", "[p, q]", "p ? q : p", "-p", "+p", "!p", "!!p", "~p", "typeof p",
+		"p.k", "p!.k", "p(q)", "fid(p) == fid(q)", "max(p, q)", "join([p, q], ',')", "includes([p], q)", "toString(p) + toString(q)", "$v = p, $v == q", "len(p)", "p + ''", "'' + p", "p == 'a'", "p == 1", "1 == p", "p == null", "null == p"}
+	pi := 0
+	for _, k1 := range kinds {
+		for _, k2 := range kinds {
+			pi++
+			if !w.Mine(pi) {
+				continue
+			}
+			d := val.Map(val.KV{K: "p", V: mk(k1, 1)}, val.KV{K: "q", V: mk(k2, 2)}, val.KV{K: "fid", V: val.Fn("id")})
+			for oi, op := range pairOps {
+				if w.Quick() && (pi+oi)%3 != 0 {
+					continue
+				}
+				run("kind-pair", op, d, "kind_pair_cases")
+			}
 		}
 	}
 	// 6. misuse must be an error
